@@ -3,13 +3,14 @@ operators of FramingOps.tla over every segmentation) and its non-vacuity run."""
 import json, os
 from vlib.core import Machinery
 
-LINE_MUTANTS = ["partial_at_refill", "split_on_cr", "drop_last", "dup", "claim_unlimited"]
+LINE_MUTANTS = ["partial_at_refill", "split_on_cr", "drop_last", "dup", "claim_unlimited", "read_on_after_error"]
 FRAME_MUTANTS = ["lose_at_cut", "prefix_any", "hdr_eof_clean"]
 
 
 def mc(ctx, readers, maxlen, maxlenf, caps=(0, 3), live=True, workers=4):
-    """safety (LineOK / FrameOK in every state) and termination (every connection is finished by its
-    terminating condition) of the reader models, all readers x capacities x streams x segmentations"""
+    """safety (LineOK / FrameOK / StopsAtError in every state) and termination (every connection is
+    finished by its terminating condition) of the reader models, all readers x capacities x streams x
+    segmentations x (line readers) positions of a read timeout"""
     if os.environ.get("VERIF_DEV_SKIP_MC"):        # development only (trying code mutants quickly)
         ctx.note("model checking skipped (VERIF_DEV_SKIP_MC)")
         return None
